@@ -128,7 +128,10 @@ pub assume_specification[ std::process::exit ](code: i32) -> !;
 
 /// ASSUMPTION: `String -> PathBuf` conversion keeps the text
 pub axiom fn axiom_string_into_pathbuf_obeys()
-    ensures <String as vstd::std_specs::convert::IntoSpec<std::path::PathBuf>>::obeys_into_spec();
+    ensures <String as vstd::std_specs::convert::IntoSpec<std::path::PathBuf>>::obeys_into_spec(),
+            <std::path::PathBuf as vstd::std_specs::convert::FromSpec<String>>::obeys_from_spec();
+pub broadcast axiom fn axiom_pathbuf_from_string(s: String)
+    ensures pathbuf_str(#[trigger] <std::path::PathBuf as vstd::std_specs::convert::FromSpec<String>>::from_spec(s)) == s@;
 pub broadcast axiom fn axiom_string_into_pathbuf(s: String)
     ensures pathbuf_str(#[trigger] <String as vstd::std_specs::convert::IntoSpec<std::path::PathBuf>>::into_spec(s)) == s@;
 
@@ -388,6 +391,10 @@ pub broadcast axiom fn axiom_concat_vecs(s: Seq<Vec<u8>>, out: Vec<u8>)
 pub broadcast axiom fn axiom_concat_arrays2(s: Seq<[u8; 2]>, out: Vec<u8>)
     requires #[trigger] concat_rel::<[u8; 2], u8, Vec<u8>>(s, out),
     ensures out@ == flatten(s.map_values(|x: [u8; 2]| x@));
+
+/// ASSUMPTION (Rust language guarantee): no slice is longer than isize::MAX elements
+pub broadcast axiom fn axiom_slice_len_isize(s: &[u8])
+    ensures #[trigger] s@.len() <= isize::MAX;
 
 /// ASSUMPTION: `usize::to_string` is the decimal text
 /// (vstd's `ToString::to_string` contract is `to_string_from_display_ensures`, uninterpreted for usize)
